@@ -50,15 +50,14 @@ def extract_mem(it, row, tabs, configs):
                     else:
                         out.problems.append('unrecognised alignment test %r' % (cond,))
                 elif any(s == offset for s in syms):
-                    c0 = pe.norm_cond(cond)
-                    if not (c0.op == '!=' and c0.args[1] == 0):
+                    if _offset_nonzero(cond, True, offset) is None:
                         out.problems.append('unrecognised offset test %r at %s' % (cond, loc))
                 else:
                     out.problems.append('decision on %r at %s' % (cond, loc))
         for t in good:
             uses_off = any(isinstance(p, tuple) and is_sym(p[1]) and p[1] == offset for p in t.parts)
             # which value of (offset != 0) does this path assume?
-            off_dec = [tk for c, tk, _ in t.path.decisions if offset in list(pe.sym_walk(c))]
+            off_dec = [_offset_nonzero(c, tk, offset) for c, tk, _ in t.path.decisions if offset in list(pe.sym_walk(c))]
             key = (pretty, multiple, 'off' if (off_dec and off_dec[0]) or (not off_dec and uses_off) else 'nooff')
             if not off_dec:
                 key = (pretty, multiple, 'always-off' if uses_off else 'never-off')
@@ -66,6 +65,23 @@ def extract_mem(it, row, tabs, configs):
                 out.problems.append('two successful paths for %r' % (key,))
             out.variants[key] = t
     return out
+
+
+def _offset_nonzero(cond, taken, offset):
+    """does the decision establish offset != 0 on this path?  Accepts offset != 0, offset == 0, offset, !offset (through casts)"""
+    c0 = pe.norm_cond(cond)
+    neg = False
+    while pe.is_sym(c0) and c0.op == '!':
+        neg = not neg
+        c0 = pe.norm_cond(c0.args[0])
+    c1 = pe.strip_casts(c0)
+    if pe.is_sym(c1) and c1.op in ('!=', '==') and c1.args[1] == 0 and pe.strip_casts(c1.args[0]) == offset:
+        r = bool(taken) if c1.op == '!=' else not taken
+    elif c1 == offset:
+        r = bool(taken)
+    else:
+        return None
+    return (not r) if neg else r
 
 
 def slot(tabs, t, idx):
